@@ -108,9 +108,9 @@ def _ground_index_terms(exprs, limit=60):
                         add(idx, str(ch[0].sort()))
             elif kind == z3.Z3_OP_UNINTERPRETED:
                 if ch:
-                    for a in ch:
+                    for pos, a in enumerate(ch):
                         if not has_var(a) and not z3.is_array(a):
-                            add(a)
+                            add(a, f"uf:{d.name()}:{pos}")
                 else:
                     if not z3.is_array(e):
                         add(e)
@@ -195,8 +195,9 @@ def _has_quant(e, seen=None):
 
 
 def _var_array_sorts(q):
-    """For each de-Bruijn index of quantifier q: the sorts of the arrays that the variable indexes directly in
-    the body (empty -> no select trigger, fall back to all ground terms of the sort)."""
+    """For each de-Bruijn index of quantifier q: trigger keys of the positions where the variable occurs
+    directly -- the sort of an array it indexes, or (function name, argument position) of an uninterpreted
+    function it is an argument of. Empty -> no trigger, fall back to all ground terms of the sort."""
     out = {}
     stack = [(q.body(), 0)]
     seen = set()
@@ -217,12 +218,25 @@ def _var_array_sorts(q):
                         vi = z3.get_var_index(idx) - depth
                         if vi >= 0:
                             out.setdefault(vi, set()).add(str(ch[0].sort()))
+            elif x.decl().kind() == z3.Z3_OP_UNINTERPRETED and ch:
+                for pos, a in enumerate(ch):
+                    if z3.is_var(a):
+                        vi = z3.get_var_index(a) - depth
+                        if vi >= 0:
+                            out.setdefault(vi, set()).add(f"uf:{x.decl().name()}:{pos}")
             for c in ch:
                 stack.append((c, depth))
     return out
 
 
-def expand_universals(e, cands, pos=True, cap=200):
+class Budget(Exception):
+    pass
+
+
+_budget = [0]
+
+
+def expand_universals(e, cands, pos=True, cap=60):
     """Replace universal-force quantifiers by the conjunction (disjunction under negation) of their ground
     instances at the candidate terms. Only weakens an assertion -> sound for `unsat`."""
     if z3.is_quantifier(e):
@@ -255,6 +269,9 @@ def expand_universals(e, cands, pos=True, cap=200):
             if len(combos) > cap:
                 combos = combos[:cap]
         insts = []
+        _budget[0] -= len(combos)
+        if _budget[0] < 0:
+            raise Budget()
         for combo in combos:
             body = z3.substitute_vars(e.body(), *reversed(combo))
             body = skolemize(norm_bool(body), pos)
@@ -281,11 +298,14 @@ def instantiate(assertions, rounds=2):
     sk = [skolemize(norm_bool(a), True) for a in assertions]
     if not any(_has_quant(a) for a in sk):
         return sk, None
-    cur = sk
     out = sk
     for _ in range(rounds):
         cands = _ground_index_terms(out if out is not sk else [a for a in sk])
-        out = [expand_universals(a, cands, True) for a in sk]
+        _budget[0] = 4000
+        try:
+            out = [expand_universals(a, cands, True) for a in sk]
+        except Budget:
+            return None, sk
     return out, sk
 
 
@@ -311,7 +331,35 @@ def _worker(task):
         flat = []
         for a in s0.assertions():
             flatten_and(a, flat)
-        inst, full = instantiate(flat)
+        # stage 1: skolemise; quantifier-free queries go straight to the solver, quantified ones are first
+        # tried with E-matching only (no model-based instantiation): fast, and `unsat` is all we need there
+        sk = [skolemize(norm_bool(a), True) for a in flat]
+        if any(_has_quant(a) for a in sk):
+            for mbqi in (False, True):
+                s1 = z3.Solver()
+                s1.set("timeout", timeout_ms if mbqi else min(timeout_ms, 3000))
+                s1.set("smt.mbqi", mbqi)
+                for a in sk:
+                    s1.add(a)
+                r1 = s1.check()
+                if r1 == z3.unsat:
+                    res["status"] = "unsat"
+                    res["backend"] = "z3+quantifiers" if mbqi else "z3+ematching"
+                    res["time"] = time.time() - t0
+                    return res
+            inst, full = instantiate(flat)
+            if inst is None:
+                res["status"] = "unknown"
+                res["reason"] = "not proved by E-matching (" + s1.reason_unknown() + "); instantiation budget exhausted"
+                if use_cvc5:
+                    r3 = _cvc5(_to_smt2(sk), timeout_ms)
+                    if r3 == "unsat":
+                        res["status"] = "unsat"
+                        res["backend"] = "cvc5"
+                res["time"] = time.time() - t0
+                return res
+        else:
+            inst, full = sk, None
         text_inst = _to_smt2(inst)
         text_full = _to_smt2(full) if full is not None else None
         s = z3.Solver()
